@@ -20,13 +20,13 @@ def storage_modes(tier):
         open(src, 'w').close()
         TXT = ['gauge #12, "left" bank', '#410001', 'k: v']     # commas, quotes, colons, hashes (also leading)
         df = pd.DataFrame({'flow_1': [0.5, 1.25, -3.0], 'n-2': [1, 2, 3], 'name x': TXT})
-        comment = {'station': 'ab:12 : x', 'note': 'n'}
+        comment = {'station': 'ab:12 : x', 'note': 'see #12 and #13: fixed'}
         def check(tag, data, com):
             out.append(('columns[%s]' % tag, list(data.columns) == list(df.columns), dict(mode=tag, got=list(map(str, data.columns)))))
             out.append(('rows[%s]' % tag, len(data) == len(df), dict(mode=tag)))
             out.append(('values[%s]' % tag, bool(np.allclose(data['flow_1'].values, df['flow_1'].values, atol=1e-5)) and
                         list(data['n-2']) == [1, 2, 3] and list(data['name x']) == TXT, dict(mode=tag, got=list(map(str, data['name x'])))))
-            out.append(('comments[%s]' % tag, com.get('station') == 'ab:12 : x' and com.get('note') == 'n' and com.get('nrow') == '3' and
+            out.append(('comments[%s]' % tag, com.get('station') == 'ab:12 : x' and com.get('note') == 'see #12 and #13: fixed' and com.get('nrow') == '3' and
                         com.get('ncol') == '3', dict(mode=tag, got={k: com.get(k) for k in ('station', 'note', 'nrow', 'ncol')})))
         for tag, name, compress in (('plain', 'p.csv', False), ('zip:name.csv', 'a.csv', True), ('zip:name.zip', 'c.zip', True),
                                     ('zip:extensionless', 'b', True), ('zip:dotted.name.csv', 'v1.2.csv', True)):
@@ -46,6 +46,28 @@ def storage_modes(tier):
             check('archive-member', data, com)
         except Exception as e:
             out.append(('roundtrip[archive-member]', False, dict(mode='archive-member', error=repr(e))))
+        # a frame of more than 999 rows: the recorded count comes back as the plain number
+        try:
+            big = pd.DataFrame({'v': np.arange(1200) * 0.5})
+            f = os.path.join(d, 'big.csv')
+            csv.write_csv(big, f, {'k': 'v'}, src, write_sys_info=False, author='me')
+            data, com = csv.read_csv(f)
+            out.append(('recorded-row-count-of-a-long-frame', len(data) == 1200 and com.get('nrow') == '1200' and com.get('ncol') == '1', dict(mode='plain-1200-rows', got=[com.get('nrow'), com.get('ncol')])))
+        except Exception as e:
+            out.append(('roundtrip[plain-1200-rows]', False, dict(mode='plain-1200-rows', error=repr(e))))
+        # the file just written is the one read back, also when an older file of the same stem (other storage mode) sits in the folder
+        try:
+            sub = os.path.join(d, 'seq')
+            os.makedirs(sub)
+            old = df.copy()
+            old['flow_1'] = [9.0, 9.0, 9.0]
+            csv.write_csv(old, os.path.join(sub, 'export.csv'), {'station': 'old'}, src, compress=False, write_sys_info=False, author='me')
+            csv.write_csv(df, os.path.join(sub, 'export'), comment, src, compress=True, write_sys_info=False, author='me')
+            data, com = csv.read_csv(os.path.join(sub, 'export'))
+            out.append(('latest-write-is-read-back', com.get('station') == 'ab:12 : x' and bool(np.allclose(data['flow_1'].values, df['flow_1'].values, atol=1e-5)),
+                        dict(mode='plain-then-compressed-same-stem', got=com.get('station'))))
+        except Exception as e:
+            out.append(('roundtrip[plain-then-compressed-same-stem]', False, dict(mode='plain-then-compressed-same-stem', error=repr(e))))
         # two members with the same base name in different sub-folders: each is read back as itself
         try:
             zf = os.path.join(d, 'arch2.zip')
